@@ -109,10 +109,11 @@ META = dict(
                 "`this`, `super` and parameters stay invocation-local for the extracted scope set-up order whatever the declaring scope defines "
                 "(stored_names_are_local on a scope model, storesLocal proved sound); locking scope-method calls never fault and never deadlock "
                 "(bookkeeping_never_faults_partial). For a FRAGMENT hW is now a theorem about the evaluator model (Props/C11Frame.lean, over Model/Eval's own "
-                "setValue / setLocalValue / newChild and C05's scope lemmas): straight-line sequences of `let` and of assignments to plain names the "
-                "declaring chain does not define, issued in the sink scope or below, write no scope outside the sink's sub-tree (writes_frame), so the "
-                "declaring chain and every other invocation's scopes are untouched (other_invocation_untouched); the assignment step of eval is tied "
-                "(identSet_plain_is_setValue); the induction over eval for if / calls / arithmetic is NOT done. Otherwise hW is discharged only as far as the regenerated syntactic facts go; locals created by the statements "
+                "eval and its setValue / setLocalValue / newChild, with C05's scope lemmas): a sink body that is a `statements` node of `let v` and `v := w` "
+                "statements (plain identifiers, assigned names not defined in the declaring chain), evaluated by Ecal.Ev.eval in the sink scope, writes no "
+                "scope outside the sink's sub-tree (fragment_body_frame, by the sequencing induction eval_statements_frame over eval_let_statement_frame / "
+                "eval_assign_statement_frame), so the declaring chain and every other invocation's scopes are untouched (sink_body_leaves_others_alone) — "
+                "no hypothesis about what evaluation writes. Arithmetic / literals, `if` (allocation), x.* calls and the READ half are NOT done. Otherwise hW is discharged only as far as the regenerated syntactic facts go; locals created by the statements "
                 "are covered by hW, not by an instance theorem. Tie to /repo: facts + stress compared with the model-computed per-event table."),
     level_note=("Trusted: Lean kernel + propext/Classical.choice/Quot.sound; the syntactic extractors (no alias analysis); sequential consistency; "
                 "the evaluator itself is not modelled (no Lean port of statement evaluation inside these models); the engine's error recording is "
